@@ -130,6 +130,7 @@ OPS = [
     O('uint.neg_mod', ['ltm', '-', 'mod'], lean='uint_neg_mod_ni'), O('uint.double_mod', ['ltm', '-', 'mod'], lean='uint_add_mod_ni'),
     O('uint.add_mod_special', ['u', 'u', 'l']), O('uint.sub_mod_special', ['u', 'u', 'l']), O('uint.mul_mod_special', ['u', 'u', 'nzl']),
     O('uint.mul_mod', ['u', 'u', 'omod'], wq=[1, 2, 4], heavy=6),
+    O('uint.mul_mod_trait', ['u', 'u', 'nz'], wq=[1, 2, 4], lean='mul_mod_trait_leaks_modulus', heavy=4),
     O('uint.inv_mod2k', ['u', 'k'], wq=[1, 2, 4], lean='uint_inv_mod2k_ni', heavy=8), O('uint.inv_mod2k_vartime', 'u', ['k'], wq=[1, 2, 4], kind='vt', lean='inv_mod2k_vartime_trace_pub', heavy=4),
     O('uint.inv_odd_mod', ['u', '-', 'omod'], wq=[1, 2, 4], lean='jump_leaks', heavy=8), O('uint.inv_mod', ['u', '-', 'nz'], wq=[1, 2, 4], lean='jump_leaks', heavy=16),
     O('uint.gcd', ['u', 'u'], wq=[1, 2, 4], lean='jump_leaks', heavy=8),
@@ -1148,6 +1149,10 @@ def main():
 
     if args.replay:
         rp = json.load(open(args.replay))
+        if 'line' in rp:
+            # a replay of the value correspondence (part C): the generic runner re-executes the operation line(s)
+            pr = subprocess.run([sys.executable, os.path.join(VERIF, 'tools', 'runner.py'), PID, '--replay', args.replay, '--aux', '/dev/null'])
+            sys.exit(pr.returncode)
         lines = rp.get('job_lines')
         if not lines:
             print('replay file names no job lines:', json.dumps(rp)[:400])
@@ -1198,8 +1203,8 @@ def main():
     if os.path.exists(cpath) and not args.only:
         for l in open(cpath):
             l = l.strip()
-            if not l or l.startswith('#'):
-                continue
+            if not l or l.startswith('#') or l.startswith('c01.'):
+                continue            # `c01.*` lines belong to the value correspondence (tools/runner.py C01)
             parts = [x.strip() for x in l.split('|')]
             hd = parts[0].split()
             if hd[0] not in OPS_BY_NAME or (binop(hd[0]), int(hd[1])) not in reg:
@@ -1342,6 +1347,28 @@ def main():
     lean_cov = {o['name']: o['lean'] for o in OPS if o['lean'] and o['name'] in ops_hist}
     lean_missing = sorted({v for v in lean_cov.values() if v not in proved}) if po['theorems'] else []
     kind_of = lambda th: 'negative (the model shows the leak)' if th.endswith('_leaks') or th.startswith('boxed_shl_feeds') else 'trace is a function of the public operand' if th.endswith('_trace_pub') else 'noninterference'
+    # ---- part C: value correspondence of the leakage model (its functions compute the crate's results): the generic runner on
+    # the `c01.leak.*` / `c01.hook.*` operation lines, real crate (two build profiles) vs CB.Leak model (L1) vs plain arithmetic (L0)
+    valcorr = None
+    if not args.only and not args.replay and os.environ.get('C01_SKIP_VALUES') is None:
+        aux = os.path.join(VERIF, 'replays', f'{PID}-{tier}-{seed}-values.json')
+        os.makedirs(os.path.dirname(aux), exist_ok=True)
+        pr = subprocess.run([sys.executable, os.path.join(VERIF, 'tools', 'runner.py'), PID, '--tier', tier, '--aux', aux],
+                            env=dict(os.environ, VERIF_SEED=str(seed)), stdout=subprocess.PIPE, stderr=subprocess.STDOUT, text=True)
+        for l in pr.stdout.split('\n'):
+            if l.startswith(('VIOLATION', 'KNOWN-FINDING', 'ERROR')):
+                print(l)
+        try:
+            valcorr = json.load(open(aux))
+        except Exception:
+            valcorr = dict(rc=pr.returncode, error=pr.stdout[-1500:])
+        log(f"value correspondence of the leakage model: rc={pr.returncode} lines={valcorr.get('lines')} violations={valcorr.get('violations')}")
+        if pr.returncode == 1:
+            rc = 1
+        elif pr.returncode != 0 and rc == 0:
+            print('ERROR machinery: value correspondence run failed:\n' + pr.stdout[-2000:])
+            rc = pr.returncode
+
     ev = dict(
         property_id=PID, tier=tier, seed=seed, level=args.level,
         coverage=dict(
@@ -1367,7 +1394,8 @@ def main():
             known_findings_listed_but_not_observed=sorted({f"{g['op']}/{g['width']}" for g in groups if finding_for(findings, g['op'], g['width'])}
                                                           - {f"{g['op']}/{g['width']}" for v in known.values() for g, _ in v}),
             artefact_only_differences=artefact_only, artefact_sites=len(artefact_sites()),
-            corpus_groups=ncorpus),
+            corpus_groups=ncorpus,
+            value_correspondence_of_leak_model=valcorr),
         assumptions=['x86_64-unknown-linux-gnu, rustc ' + subprocess.run(['rustc', '--version'], stdout=subprocess.PIPE, text=True).stdout.strip() + ', opt-level 3, codegen-units 16, crate features alloc+extra-sizes',
                      'address-level leakage model (control flow edges, data addresses, hardware division sites); no micro-architectural effects (data-dependent instruction latency other than div, cache-bank conflicts, speculation)',
                      'NonZero/Odd construction and CtOption unwrapping happen inside the wrappers with valid (non-zero / odd) operands only',
